@@ -296,7 +296,35 @@ def search(ctx):
                {"kind": "change", "file": "p0/f0.rego", "text": content(0, [2], 1), "pauseMs": 0},
                {"kind": "rename", "file": "p0/f0.rego", "to": "p0/f0_r.rego", "pauseMs": 0}]
         cases.append({"id": len(cases), "op": "lsp.history", "files": files, "events": evs, "_strict": True})
+    before = len(ctx.failures)
     evaluate(ctx, cases, procs=12)
+    if any(not f.get("finding") for f in ctx.failures[before:]):
+        return
+    # nothing yet: the same sweep against the current tree built with a perturbed SCHEDULE (sleeps before the stores of
+    # lint results and before non-empty publications; values and control flow untouched), which widens the windows
+    # between check and store / read and notify from microseconds to tens of milliseconds
+    extra, ok = core.perturbed_lsp()
+    if not ok:
+        ctx.count("schedule-perturbation-anchors-missing")
+        return
+    try:
+        alt = core.build_oracle(extra=extra, name="oracle-sched")
+    except core.BuildBroken:
+        ctx.count("schedule-perturbation-build-failed")
+        return
+    std = ctx.oracle
+    ctx.oracle = alt
+    try:
+        evaluate(ctx, [dict(c, schedule="widened") for c in cases], procs=8)
+    finally:
+        ctx.oracle = std
+
+
+def replay_oracle(ctx, case):
+    if case.get("schedule") != "widened":
+        return None
+    extra, ok = core.perturbed_lsp()
+    return core.build_oracle(extra=extra, name="oracle-sched") if ok else None
 
 
 def evaluate(ctx, cases, procs=6):
@@ -307,6 +335,9 @@ def evaluate(ctx, cases, procs=6):
         r = impl[c["id"]]
         o = r.get("out") or {}
         desc = {"files": c["files"], "events": c["events"]}
+        if c.get("schedule"):
+            # see core.perturbed_lsp: sleeps before stores / publications, nothing else changed
+            desc["schedule"] = c["schedule"]
         if "panic" in r or "crash" in r:
             ctx.fail("the language server crashed", desc, None, str(r)[:800])
             continue
